@@ -1292,6 +1292,20 @@ func c06PureLookup(r *core.Run, rule string) {
 						r.Bad(rule, core.FuncName(fn), "no-map-update-of("+s+")", p.InstrPos(x), "the lookup path updates the map "+s)
 					}
 				case *ssa.Call:
+					// a mutating method of a container kept in shared state (a sync.Map cache of lookup
+					// results, an atomic counter): the lookup memoises - what it hands out later is what
+					// was registered when the name was first looked up, not what is registered now
+					if cal := x.Common().StaticCallee(); cal != nil && cal.Pkg != nil && cal.Pkg != gh.Pkg && len(x.Call.Args) > 0 {
+						if fa, isFA := core.Strip(x.Call.Args[0]).(*ssa.FieldAddr); isFA {
+							if f, ok := core.FieldOf(fa); ok && shared[f.Struct] {
+								switch cal.String() {
+								case "(*sync.Map).Store", "(*sync.Map).LoadOrStore", "(*sync.Map).Delete", "(*sync.Map).LoadAndDelete", "(*sync.Map).Swap", "(*sync.Map).CompareAndSwap", "(*sync.Map).CompareAndDelete",
+									"sync/atomic.StorePointer", "(*sync/atomic.Value).Store", "(*sync/atomic.Pointer).Store":
+									r.Bad(rule, core.FuncName(fn), "no-mutating-call-on("+f.String()+")", p.InstrPos(x), "the lookup path stores into "+f.String()+" ("+cal.String()+"): results are memoised in shared state - a match handed out later carries the handler, listeners and group registered when the name was first looked up (listeners added since are never called)")
+								}
+							}
+						}
+					}
 					if core.CalleeName(x) == "builtin:append" {
 						if s, ok := fromShared(x.Call.Args[0], 0); ok {
 							r.Bad(rule, core.FuncName(fn), "no-append-into("+s+")", p.InstrPos(x), "the lookup path appends into the backing array of "+s+" (a scratch buffer kept in shared state): two concurrent lookups overwrite each other's tokens, so params, group and even the matched handler can belong to another name")
